@@ -23,8 +23,12 @@ import sys
 def main():
     variant, inp, outp, prog = sys.argv[1:5]
     sys.path.insert(0, os.path.dirname(os.path.dirname(os.path.dirname(os.path.abspath(__file__)))))
-    from mc import mj
+    from mc import build, mj
     from mc.checks import _c32_gen as G
+    if variant == "asan":
+        path = os.environ["C37_ASAN_LIB"]
+        orig = build.ensure
+        build.ensure = lambda v="rel", with_support=True: path if v == "asan" else orig(v, with_support)
     lib = mj.load(variant)
     vfs = G.make_vfs(lib)
     err = ctypes.create_string_buffer(4000)
